@@ -75,6 +75,25 @@ def circuit(rng, n_in=(1, 5), n_gates=(1, 10), types=GATES, max_arity=4, consts=
         if multi:
             g = rng.choice(multi)
             c.connect(g, g)
+    if adversarial and rng.random() < 0.5:
+        # names an encoder could pick for its auxiliary nets around a parity gate: `xor_inv_<g>`, `<g>_xor_inv`,
+        # `xor_<u>_<v>`, `<g>_xor_<k>` — as free inputs wired into some gate, so a shared variable changes the function
+        par = [g for g in gates if c.type(g) in ("xor", "xnor")]
+        if par:
+            g = rng.choice(par)
+            fi = sorted(c.graph.predecessors(g))
+            cands = [f"xor_inv_{g}", f"{g}_xor_inv", f"xnor_inv_{g}"]
+            if len(fi) >= 2:
+                u, v = rng.sample(fi, 2)
+                cands += [f"xor_{u}_{v}", f"xor_{v}_{u}", f"xnor_{u}_{v}", f"{g}_xor_{len(fi)}", f"{g}_xor_3"]
+            nm = rng.choice(cands)
+            if nm not in c.graph.nodes:
+                c.add(nm, "input")
+                tgt = [x for x in gates if c.type(x) in MULTI and x != g]
+                if tgt:
+                    c.connect(nm, rng.choice(tgt))
+                else:
+                    c.add(f"zz_{len(c.graph)}", "and", fanin=[nm, g], output=True)
     # outputs
     for n in list(c.graph.nodes):
         t = c.type(n)
